@@ -2,6 +2,8 @@ import RosuModel.Props.C14Ieee
 import RosuModel.Props.C14Split
 import RosuModel.Lemmas.FloatTrunc
 import RosuModel.Lemmas.DecodedSliders
+import RosuModel.Lemmas.FloatArithMono
+import RosuModel.Lemmas.FloatBitsLaws
 namespace Rosu.C14
 open Rosu Scalar RtObjects DecodedSliders
 set_option linter.unusedSectionVars false
@@ -348,45 +350,64 @@ theorem storedAll_snoc (hs : List (HitObject F P)) (o : HitObject F P) (h : Stor
   · exact h x hx
   · simp only [List.mem_singleton] at hx; subst hx; exact ho
 
-/-- **one `[HitObjects]` line**: accepted or not, from a state with an empty `curve_points` scratch, the scratch is
-empty again and every object has the stored numeric form. -/
-theorem parseHitObjectLine_stored (mode : GameMode) (st : HOCore F P) (line : Str)
-    (hc : st.curvePoints = []) (hinv : StoredAll st.hitObjects) :
-    (parseHitObjectLine mode st line).1.curvePoints = [] ∧ StoredAll (parseHitObjectLine mode st line).1.hitObjects := by
+/-- **one `[HitObjects]` line**, accepted or not, from a state with an empty `curve_points` scratch: the scratch is
+empty again, and the object list is unchanged or extended by one object of the stored numeric form. -/
+theorem parseHitObjectLine_push (mode : GameMode) (st : HOCore F P) (line : Str) (hc : st.curvePoints = []) :
+    (parseHitObjectLine mode st line).1.curvePoints = [] ∧
+    ((parseHitObjectLine mode st line).1.hitObjects = st.hitObjects ∨
+      ∃ o, (parseHitObjectLine mode st line).1.hitObjects = st.hitObjects ++ [o] ∧ StoredObj o) := by
   unfold parseHitObjectLine
   split
-  · exact ⟨hc, hinv⟩
+  · exact ⟨hc, Or.inl rfl⟩
   · rename_i hd hhd
     obtain ⟨hx, hy, ht⟩ := header_stored line hd hhd
     split
-    · exact ⟨hc, hinv⟩
+    · exact ⟨hc, Or.inl rfl⟩
     · split
-      · exact ⟨hc, hinv⟩
+      · exact ⟨hc, Or.inl rfl⟩
       · rename_i k b hb
-        exact ⟨hc, storedAll_snoc _ _ hinv ⟨ht, buildCircle_stored st hd k b hx hy hb⟩⟩
+        exact ⟨hc, Or.inr ⟨_, rfl, ht, buildCircle_stored st hd k b hx hy hb⟩⟩
     · have hs := buildSlider_scratch mode st hd hc
       have hf := buildSlider_frame mode st hd
       split
       · rename_i st' heq
         rw [heq] at hs hf
-        exact ⟨hs, by simp only [] at hf ⊢; rw [hf.1]; exact hinv⟩
+        exact ⟨hs, Or.inl hf.1⟩
       · rename_i st' k b heq
         rw [heq] at hs hf
-        refine ⟨hs, ?_⟩
-        show StoredAll (st'.hitObjects ++ [_])
+        refine ⟨hs, Or.inr ⟨{ startTime := hd.startTime, kind := k, samples := b.convertSoundType hd.soundType }, ?_,
+          ht, buildSlider_stored mode st st' hd k b hx hy hc heq⟩⟩
+        show st'.hitObjects ++ [_] = _
         simp only [] at hf
         rw [hf.1]
-        exact storedAll_snoc _ _ hinv ⟨ht, buildSlider_stored mode st st' hd k b hx hy hc heq⟩
     · split
-      · exact ⟨hc, hinv⟩
+      · exact ⟨hc, Or.inl rfl⟩
       · rename_i k b hb
-        exact ⟨hc, storedAll_snoc _ _ hinv ⟨ht, buildSpinner_stored hd k b hb⟩⟩
+        exact ⟨hc, Or.inr ⟨_, rfl, ht, buildSpinner_stored hd k b hb⟩⟩
     · split
-      · exact ⟨hc, hinv⟩
+      · exact ⟨hc, Or.inl rfl⟩
       · rename_i k b hb
-        exact ⟨hc, storedAll_snoc _ _ hinv ⟨ht, buildHold_stored hd k b hx ht hb⟩⟩
+        exact ⟨hc, Or.inr ⟨_, rfl, ht, buildHold_stored hd k b hx ht hb⟩⟩
 
+theorem parseHitObjectLine_stored (mode : GameMode) (st : HOCore F P) (line : Str)
+    (hc : st.curvePoints = []) (hinv : StoredAll st.hitObjects) :
+    (parseHitObjectLine mode st line).1.curvePoints = [] ∧ StoredAll (parseHitObjectLine mode st line).1.hitObjects := by
+  obtain ⟨h1, h2⟩ := parseHitObjectLine_push mode st line hc
+  refine ⟨h1, ?_⟩
+  rcases h2 with h | ⟨o, h, ho⟩
+  · rw [h]; exact hinv
+  · rw [h]; exact storedAll_snoc _ _ hinv ho
 
+/-- an accepted line pushes exactly one object, and it has the stored numeric form. -/
+theorem accepted_stored (mode : GameMode) (st : HOCore F P) (line : Str) (hc : st.curvePoints = [])
+    (hok : (parseHitObjectLine mode st line).2 = true) :
+    ∃ o, (parseHitObjectLine mode st line).1.hitObjects = st.hitObjects ++ [o] ∧ StoredObj o := by
+  obtain ⟨_, o, _, hpush, _⟩ := accepted_pushes_one mode st line hok
+  rcases (parseHitObjectLine_push mode st line hc).2 with h | h
+  · rw [hpush] at h
+    have := congrArg List.length h
+    simp at this
+  · exact h
 
 /-! ### through the framing driver and the finaliser -/
 
@@ -450,4 +471,179 @@ theorem decoded_stored (bs : List UInt8) (st : BeatmapState F P) (m : Beatmap F 
 end Finish
 
 end Generic
+end Rosu.C14
+
+namespace Rosu.C14
+open Rosu Scalar RtObjects DecodedSliders
+open Float.Model Float.Model.UnpackedFloat
+
+/-! ## 2. the IEEE instances `F = Float`, `P = Float32` -/
+
+/-- an integer-valued `f32` within `±bound`: `z as f32` for an integer `z`, exact for `bound < 2^23`. -/
+def IntF32 (bound : Int) (p : Float32) : Prop := ∃ z : Int, -bound ≤ z ∧ z ≤ bound ∧ p = Scalar.ofInt z
+
+/-- **position_truncated, IEEE.** For an `f32` `x` that passed the parser's coordinate test, `z = x as i32` and the
+stored coordinate `s = z as f32`: `|z| ≤ 131072`; `s` is exactly `z` (bit pattern `intBits fmt32 z`), not a NaN and
+within the limit; `s as i32 = z`, so `s as i32 as f32 = s` (a stored position is a fixed point of the truncation);
+`|s| ≤ |x| < |z| + 1` in the IEEE order (truncation toward zero loses less than one unit); the sign of `z` is the sign of `x`. -/
+theorem position_truncated_float32 (x : Float32) (h : InCoord x) :
+    let z : Int := Scalar.toI32 x
+    let s : Float32 := Scalar.ofInt z
+    (-131072 ≤ z ∧ z ≤ 131072) ∧ s.toBits.toNat = FCL.intBits fmt32 z ∧ InCoord s ∧
+    Scalar.toI32 s = z ∧ Scalar.ofInt (Scalar.toI32 s) = s ∧
+    Scalar.le (Scalar.abs s) (Scalar.abs x) = true ∧
+    Scalar.lt (Scalar.abs x) (Scalar.ofInt ((z.natAbs : Int) + 1) : Float32) = true ∧
+    (z < 0 → Scalar.lt x (0 : Float32) = true) ∧ (0 < z → Scalar.lt (0 : Float32) x = true) := by
+  obtain ⟨h1, h2, h3, h4, h5, h6, h7, h8, h9⟩ := FTR.trunc_coord32 x h
+  exact ⟨⟨h1, h2⟩, h3, h4, h5, by rw [h5], h6, h7, h8, h9⟩
+
+/-- a stored coordinate is an integer-valued `f32` within ±131072, within the limit, and a fixed point of `as i32 as f32`. -/
+theorem coordP_int (p : Float32) (h : CoordP p) :
+    IntF32 131072 p ∧ InCoord p ∧ Scalar.ofInt (Scalar.toI32 p) = p := by
+  obtain ⟨xv, hx, rfl⟩ := h
+  obtain ⟨⟨h1, h2⟩, _, h4, h5, h6, _⟩ := position_truncated_float32 xv hx
+  exact ⟨⟨_, h1, h2, rfl⟩, h4, h6⟩
+
+theorem zero_eq_ofInt32 : (0 : Float32) = Scalar.ofInt 0 := rfl
+
+/-- **slider control points are integers too**: the offset `(x as i32 as f32) − head` of two integers within ±131072 is
+computed exactly in `f32` (`|a − b| ≤ 262144 < 2^23`). -/
+theorem ctrlPos_int (start p : Pos Float32) (hsx : CoordP start.x) (hsy : CoordP start.y)
+    (h : CtrlPos Float start p) : IntF32 262144 p.x ∧ IntF32 262144 p.y := by
+  rcases h with rfl | ⟨x, y, hx, hy, rfl⟩
+  · exact ⟨⟨0, by decide, by decide, zero_eq_ofInt32⟩, ⟨0, by decide, by decide, zero_eq_ofInt32⟩⟩
+  · obtain ⟨⟨a, a1, a2, ha⟩, _⟩ := coordP_int _ hsx
+    obtain ⟨⟨b, b1, b2, hb⟩, _⟩ := coordP_int _ hsy
+    obtain ⟨x1, x2, _⟩ := FTR.trunc_coord64 x hx
+    obtain ⟨y1, y2, _⟩ := FTR.trunc_coord64 y hy
+    constructor
+    · refine ⟨(Scalar.toI32 x : Int) - a, by omega, by omega, ?_⟩
+      show (Scalar.ofInt (Scalar.toI32 x) : Float32) - start.x = _
+      rw [ha]
+      exact FTR.sub_int_exact_float32 _ _ (by omega) (by omega) (by omega)
+    · refine ⟨(Scalar.toI32 y : Int) - b, by omega, by omega, ?_⟩
+      show (Scalar.ofInt (Scalar.toI32 y) : Float32) - start.y = _
+      rw [hb]
+      exact FTR.sub_int_exact_float32 _ _ (by omega) (by omega) (by omega)
+
+/-! ### durations and lengths are never negative, never NaN -/
+
+theorem inLimit_finite (t : Float) (h : InLimit t) : t.toModel.unpack.isFinite = true :=
+  FMO.finite_of_bounds_float (-(maxParseValue : Float)) (maxParseValue : Float) t (by decide +kernel) (by decide +kernel)
+    h.2.2 h.1 h.2.1
+
+theorem sub_not_nan_float (a b : Float) (ha : a.toModel.unpack.isFinite = true) (hb : b.toModel.unpack.isFinite = true) :
+    Scalar.isNaN (a - b) = false := by
+  show (FMR.repack Format.binary64 (UnpackedFloat.sub Format.binary64 a.toModel.unpack b.toModel.unpack)).isNaN = false
+  rw [FAM.repack_isNaN _ (by decide) _ (FAM.sub_canon _ _ _ (FAM.float_canon a) (FAM.float_canon b))]
+  exact FB.sub_finite_not_nan _ _ _ ha hb
+
+/-- `a − b ≥ +0` for finite doubles with `b ≤ a` (the difference is rounded, never below zero, never a NaN). -/
+theorem sub_nonneg_float (a b : Float) (ha : a.toModel.unpack.isFinite = true) (hb : b.toModel.unpack.isFinite = true)
+    (hle : Scalar.le b a = true) : Scalar.le (0 : Float) (a - b) = true ∧ Scalar.isNaN (a - b) = false := by
+  have hn := sub_not_nan_float a b ha hb
+  refine ⟨?_, hn⟩
+  by_cases hfz : FMO.isFiniteNonzero a.toModel.unpack = true
+  · have h := FAM.sub_le_sub_left_float a b a hfz hle hn (sub_not_nan_float a a ha ha)
+    rw [FMO.sub_self_float a ha, ← FX.zero_eq_pzero64] at h
+    exact h
+  · -- `a` is a zero: `b ≤ ±0`, so `±0 − b` is a zero or `|b|`
+    rw [FB.le_zero_float, FAM.float_sub_unpack]
+    apply FB.repack_nn _ (by decide)
+    rw [FMO.le_float] at hle
+    revert hfz ha hle hb
+    generalize a.toModel.unpack = u
+    generalize b.toModel.unpack = v
+    intro ha hb hle hfz
+    rcases u with s | _ | s | ⟨s, m, e, hm⟩
+    · cases ha
+    · cases ha
+    · rcases v with s' | _ | s' | ⟨s', m', e', hm'⟩
+      · cases hb
+      · cases hb
+      · simp only [UnpackedFloat.sub]; split <;> exact FB.nn_zero _
+      · cases s'
+        · exact FB.nn_fin _ _ _
+        · cases s <;> cases hle
+    · exact absurd rfl hfz
+
+/-- **hold duration** `max(start, end) − start` for parsed times: `≥ 0`, not a NaN. -/
+theorem hold_duration_nonneg_float (t e : Float) (ht : InLimit t) (he : InLimit e) :
+    Scalar.le (0 : Float) (Scalar.max t e - t) = true ∧ Scalar.isNaN (Scalar.max t e - t) = false := by
+  have hft := inLimit_finite t ht
+  have hfe := inLimit_finite e he
+  have hfm : (Scalar.max t e).toModel.unpack.isFinite = true := by
+    rcases FMO.max_cases t e with h | h <;> rw [h] <;> assumption
+  exact sub_nonneg_float _ _ hfm hft (FMO.le_max_left t e ht.2.2 he.2.2)
+
+theorem up_abs64 (x : Float) : (Scalar.abs x : Float).toModel.unpack = x.toModel.unpack.abs := by
+  show FMR.repack Format.binary64 x.toModel.unpack.abs = _
+  rcases FMR.repack_canon Format.binary64 (by decide) _ (FTR.canon_abs _ _ (FAM.float_canon x)) with h | ⟨s, m, e, hm, _, hnr, _⟩
+  · exact h
+  · exact absurd (FTR.inRange_abs _ _ (FMR.unpack_inRange Format.binary64 (by decide) x.toModel.toBits.toBitVec)) hnr
+
+/-- **slider length**: a stored expected distance is at least `f64::EPSILON` (so `> 0`) and not a NaN: zero, negative
+(and NaN, which cannot be parsed) lengths are stored as `None` = natural length. -/
+theorem expStored_pos_float (e : Option Float) (h : ExpStored e) (L : Float) (hL : e = some L) :
+    Scalar.le (Scalar.eps : Float) L = true ∧ Scalar.lt (0 : Float) L = true ∧ Scalar.isNaN L = false := by
+  obtain ⟨l, rfl, hge⟩ := h L hL
+  obtain ⟨h0, hn⟩ := max_zero_ge_float l
+  have hle : Scalar.le (Scalar.eps : Float) (Scalar.max l 0) = true := by
+    rw [FMO.le_float, up_abs64] at hge
+    rw [FMO.le_float]
+    rw [FB.le_zero_float] at h0
+    revert hge h0
+    generalize (Scalar.max l 0).toModel.unpack = u
+    intro hge h0
+    rcases FMR.nonneg_cases u h0 with ⟨s, rfl⟩ | ⟨m, e, hm, rfl⟩ | rfl
+    · have hz : ¬ ((Scalar.eps : Float).toModel.unpack.le (UnpackedFloat.zero .positive) = true) := by decide +kernel
+      exact absurd hge hz
+    · exact hge
+    · exact hge
+  exact ⟨hle, FMO.lt_of_lt_of_le _ _ _ (by decide +kernel) hle, hn⟩
+
+
+/-! ### every object of a line / of a decoded map -/
+
+/-- the numeric clauses of C14 for the driver's instances. -/
+def IeeeKind : HitObjectKind Float Float32 → Prop
+  | .circle c => IntF32 131072 c.pos.x ∧ IntF32 131072 c.pos.y
+  | .slider s => IntF32 131072 s.pos.x ∧ IntF32 131072 s.pos.y ∧
+      (∀ cp ∈ s.path.controlPoints, IntF32 262144 cp.pos.x ∧ IntF32 262144 cp.pos.y) ∧
+      (∀ L, s.path.expectedDist = some L →
+        Scalar.le (Scalar.eps : Float) L = true ∧ Scalar.lt (0 : Float) L = true ∧ Scalar.isNaN L = false)
+  | .spinner s => s.pos = ⟨Scalar.ofInt 256, Scalar.ofInt 192⟩ ∧
+      Scalar.le (0 : Float) s.duration = true ∧ Scalar.isNaN s.duration = false
+  | .hold h => IntF32 131072 h.posX ∧ Scalar.le (0 : Float) h.duration = true ∧ Scalar.isNaN h.duration = false
+
+theorem spinner_pos_float32 : (⟨(512 : Float32) / 2, (384 : Float32) / 2⟩ : Pos Float32) = ⟨Scalar.ofInt 256, Scalar.ofInt 192⟩ := by
+  have h1 : ((512 : Float32) / 2) = Scalar.ofInt 256 := by decide +kernel
+  have h2 : ((384 : Float32) / 2) = Scalar.ofInt 192 := by decide +kernel
+  rw [h1, h2]
+
+/-- the stored form implies the IEEE clauses. -/
+theorem storedKind_ieee (t : Float) (ht : InLimit t) (k : HitObjectKind Float Float32) (h : StoredKind t k) : IeeeKind k := by
+  cases k with
+  | circle c => exact ⟨(coordP_int _ h.1).1, (coordP_int _ h.2).1⟩
+  | slider s =>
+    obtain ⟨hx, hy, he, hcp⟩ := h
+    exact ⟨(coordP_int _ hx).1, (coordP_int _ hy).1, fun cp hm => ctrlPos_int s.pos cp.pos hx hy (hcp cp hm),
+      fun L hL => expStored_pos_float _ he L hL⟩
+  | spinner s =>
+    obtain ⟨hp, d, _, hd⟩ := h
+    refine ⟨by rw [hp]; exact spinner_pos_float32, ?_⟩
+    rw [hd]; exact max_zero_ge_float _
+  | hold a =>
+    obtain ⟨hx, e, he, hd⟩ := h
+    refine ⟨(coordP_int _ hx).1, ?_⟩
+    rw [hd]; exact hold_duration_nonneg_float t e ht he
+
+/-- **one accepted line** (from a state with an empty path scratch, as all decoder states are:
+`parseHitObjectLine_push`): the pushed object satisfies the numeric clauses. -/
+theorem line_numeric_ieee (mode : GameMode) (st : HOCore Float Float32) (line : Str) (hc : st.curvePoints = [])
+    (hok : (parseHitObjectLine mode st line).2 = true) :
+    ∃ o, (parseHitObjectLine mode st line).1.hitObjects = st.hitObjects ++ [o] ∧ InLimit o.startTime ∧ IeeeKind o.kind := by
+  obtain ⟨o, h, ht, hk⟩ := accepted_stored mode st line hc hok
+  exact ⟨o, h, ht, storedKind_ieee _ ht _ hk⟩
+
 end Rosu.C14
